@@ -219,6 +219,18 @@ int64_t *vf_map_put(vf_map *m, uint64_t key, int64_t v, int *isnew);
  * (polar cell below coordinate resolution) somewhere in the ball. */
 int64_t vf_geo_bfs(H3Index origin, int k, vf_map *dist, H3Index **order);
 
+/* whole-resolution graph (coarse resolutions only) on geometric adjacency */
+typedef struct {
+    int res;
+    int32_t n;
+    H3Index *cells;  /* reference enumeration order */
+    int32_t *adj;    /* n*6, -1 padded */
+    vf_map index;    /* cell -> position */
+} vf_resgraph;
+int vf_resgraph_build(vf_resgraph *g, int res);
+/* BFS from src: dist[n] (int16, -1 unreachable), queue[n] scratch */
+void vf_resgraph_bfs(const vf_resgraph *g, int32_t src, int16_t *dist, int32_t *queue);
+
 /* ------------------------------------------------------------------ generators */
 typedef void (*vf_cell_fn)(H3Index h, void *u);
 /* the 12 icosahedron vertices (pentagon centres), 20 face centres, 30 edges */
